@@ -115,7 +115,7 @@ Definition list_string_eqb (a b : list string) : bool :=
    with parseTernary; assignment is parseTernary = parseAssignment; prefix operators recurse into
    parseUnary, ++/-- and the fall-through use parsePostfix *)
 Definition structure_ok (shape : list (string * string * string * string)) (ternary : list string)
-    (entry : string) (assign unary_prefix unary_calls generic_stops : list string) (cast_guard : bool)
+    (entry : string) (assign unary_prefix unary_calls generic_stops : list string) (generic_bound : nat) (cast_guard : bool)
     (t : table) : bool :=
   chain_ok shape &&
   match shape, ternary with
@@ -128,5 +128,6 @@ Definition structure_ok (shape : list (string * string * string * string)) (tern
   list_string_eqb unary_calls ["parseUnary"; "parsePostfix"; "parsePostfix"] &&
   list_string_eqb generic_stops ["TOK_AND"; "TOK_ASSIGN"; "TOK_LBRACE"; "TOK_LPAREN"; "TOK_MINUS"; "TOK_OR";
                                   "TOK_PLUS"; "TOK_RBRACE"; "TOK_RPAREN"; "TOK_SEMICOLON"] &&
+  (generic_bound =? scan_bound)%nat &&
   cast_guard &&
   (List.length shape =? List.length t)%nat.
